@@ -902,6 +902,9 @@ func condition(st Step, pre *snapshot, markers map[string]bool, placed map[strin
 			if st.Raw && (old.Node != st.Node || old.Name != utils.MakeWorkloadName(st.App, st.Entry, st.Ident)) {
 				c = "exists-elsewhere"
 			}
+		} else if old, ok := placed[st.ID]; ok && st.Raw && (old.Node != st.Node || old.Name != utils.MakeWorkloadName(st.App, st.Entry, st.Ident)) {
+			// recorded on a node that does not exist (cannot be read back), but its keys are there
+			c = "exists-elsewhere"
 		}
 		if st.Raw {
 			c += ",raw"
@@ -978,6 +981,15 @@ func runC23(x *vt.Ctx, c Case23) *vt.Finding {
 			// unit test pins that), which for a re-placed id leaves one id under two deploy keys —
 			// a corrupt world in which even a single store answers by map-iteration order.
 			x.Label("skipped: id re-placed under a marker")
+			continue
+		}
+		if (st.Op == opRemoveWorkload || st.Op == opUpdateWorkload) && strings.HasPrefix(cond, "exists-elsewhere") {
+			// precondition of Update/RemoveWorkload: the caller passes the workload as it is recorded
+			// (calcium reads it first). A struct whose names or node differ from the record makes both
+			// stores delete/rewrite one half of the keys (the id key) and leave the other half (the
+			// deploy and status keys of the real names): a corrupt world, same class as above. The thorough
+			// tier produced stores-differ findings only downstream of such steps (DESIGN.md §7.2).
+			x.Label("skipped: update/remove with names that differ from the recorded workload")
 			continue
 		}
 		executed++
